@@ -31,7 +31,7 @@ const rule = "cases = rapid-drawn scenarios (registry mode long/short idle limit
 	"oracle = lock-aware model (who holds the RW lock, which begins are queued) + map model of the database + closed-error rule + 'a fresh read-write " +
 	"transaction begins within 5 s and put+commit works' after every scenario (scenarios with a timed-out begin are run 4 times); " +
 	"non-trivial = the executed scenario contains a begin that timed out while queued for the lock, a begin whose caller gives up at the moment the lock is granted, " +
-	"a slow commit overlapped by a second finisher or a server-side cleanup of the same transaction, a sweep that meets a transaction in the last quarter of its lifetime, a commit that hit an injected storage fault, a service call on an open transaction whose request context is already cancelled or expired, an abandoned transaction cleaned up by the server, " +
+	"two finishers queued behind a slow read of the same transaction, a long-lived server (1000-1500 abandoned client lives against one service instance, about 1 case in 200), a slow commit overlapped by a second finisher or a server-side cleanup of the same transaction, a sweep that meets a transaction in the last quarter of its lifetime, a commit that hit an injected storage fault, a service call on an open transaction whose request context is already cancelled or expired, an abandoned transaction cleaned up by the server, " +
 	"or a repeated commit/rollback while another client holds or waits for the lock; distinct by FNV-64 of the case JSON"
 
 // KV is one initial database entry.
@@ -58,6 +58,7 @@ type Step struct {
 	SlowMs     int    `json:"slow_ms,omitempty"`     // commit/write_tx (registry or service path, wrapped backend): the storage takes this long for the batch, and meanwhile ...
 	During     string `json:"during,omitempty"`      // ... commit | rollback (second finisher on the same handle) | cleanup_conn | cleanup_stale | shutdown happens
 	AgePct     int    `json:"age_pct,omitempty"`     // cleanup_stale in aged mode: first wait until the oldest registered holder is at this % of its lifetime limit
+	Pair       string `json:"pair,omitempty"`        // race_finish: the two finish calls issued while a slow read (slow_ms) of the transaction is inside the storage, e.g. commit+rollback
 	Fault      bool   `json:"fault,omitempty"`       // commit/write_tx: the storage refuses the batch of this commit (wrapped backend only)
 	K          int    `json:"k,omitempty"`
 	V          string `json:"v,omitempty"`
@@ -70,15 +71,16 @@ type Step struct {
 
 // Case is one generated scenario.
 type Case struct {
-	Mode      string `json:"mode"`              // long | short_idle | short_ttl
-	Backend   string `json:"backend,omitempty"` // "" = transactions from the engine's own manager; wrapped = own manager over the engine's storage manager behind the fault-injecting pass-through
-	LimitMs   int    `json:"limit_ms"`
-	Warn      int    `json:"warn,omitempty"`        // registry warning threshold in % of the lifetime limit (critical = +25, at most 95); 0 = 75/90
-	EndAgePct int    `json:"end_age_pct,omitempty"` // aged mode: age band (% of the lifetime limit) in which the final sweep meets the oldest holder
-	Clients   int    `json:"clients"`
-	Init      []KV   `json:"init,omitempty"`
-	Steps     []Step `json:"steps"`
-	End       string `json:"end"` // rollback | conn | stale | shutdown | commit_dead_ctx | rollback_dead_ctx (service transactions: finish call with a cancelled request context first)
+	Mode      string    `json:"mode"`              // long | short_idle | short_ttl
+	Backend   string    `json:"backend,omitempty"` // "" = transactions from the engine's own manager; wrapped = own manager over the engine's storage manager behind the fault-injecting pass-through
+	LimitMs   int       `json:"limit_ms"`
+	Warn      int       `json:"warn,omitempty"`        // registry warning threshold in % of the lifetime limit (critical = +25, at most 95); 0 = 75/90
+	EndAgePct int       `json:"end_age_pct,omitempty"` // aged mode: age band (% of the lifetime limit) in which the final sweep meets the oldest holder
+	Clients   int       `json:"clients"`
+	Init      []KV      `json:"init,omitempty"`
+	Steps     []Step    `json:"steps"`
+	End       string    `json:"end"`            // rollback | conn | stale | shutdown | commit_dead_ctx | rollback_dead_ctx (service transactions: finish call with a cancelled request context first)
+	Long      *LongSpec `json:"long,omitempty"` // long-lived server case (steps unused)
 }
 
 // Result is what the child reports.
@@ -297,7 +299,7 @@ var opTable = func() []string {
 		n  int
 	}{
 		{"begin", 19}, {"write_tx", 12}, {"put", 11}, {"del", 4}, {"get", 3}, {"scan", 2}, {"commit", 16}, {"rollback", 10},
-		{"abandon", 8}, {"bad_get", 4}, {"cleanup_stale", 5}, {"cleanup_conn", 6}, {"shutdown", 1},
+		{"abandon", 8}, {"race_finish", 6}, {"bad_get", 4}, {"cleanup_stale", 5}, {"cleanup_conn", 6}, {"shutdown", 1},
 	}
 	var out []string
 	for _, e := range w {
@@ -393,6 +395,9 @@ func genStep(t *rapid.T) Step {
 				s.Ctx = ""
 			}
 		}
+	case "race_finish":
+		s.SlowMs = rapid.SampledFrom([]int{2, 5, 10, 30}).Draw(t, "slow_ms")
+		s.Pair = rapid.SampledFrom([]string{"commit+rollback", "commit+rollback", "rollback+commit", "rollback+rollback", "commit+commit"}).Draw(t, "pair")
 	case "cleanup_stale":
 		s.AgePct = rapid.SampledFrom([]int{0, 30, 60, 80, 80, 95}).Draw(t, "age_pct")
 	case "cleanup_conn":
@@ -409,6 +414,17 @@ func genStep(t *rapid.T) Step {
 }
 
 func genCase(t *rapid.T) Case {
+	// about one long-lived-server case per process of the quick tier
+	// (a residue of a 64-bit draw: rapid's small ranges are heavily biased towards their ends)
+	if rapid.Uint64().Draw(t, "long_lived")%251 == 57 {
+		return Case{Mode: "short_idle", LimitMs: 10, Clients: 1, End: "rollback", Long: &LongSpec{
+			Lives:  rapid.IntRange(1000, 1500).Draw(t, "lives"),
+			Seed:   int64(rapid.IntRange(1, 1<<30).Draw(t, "life_seed")),
+			RoPct:  rapid.IntRange(20, 70).Draw(t, "ro_pct"),
+			Polite: rapid.IntRange(5, 25).Draw(t, "polite_pct"),
+			Batch:  rapid.IntRange(10, 40).Draw(t, "batch"),
+		}}
+	}
 	c := Case{
 		Mode:    rapid.SampledFrom([]string{"long", "long", "short_idle", "short_ttl", "aged", "aged"}).Draw(t, "mode"),
 		Clients: rapid.IntRange(2, 5).Draw(t, "clients"),
@@ -443,7 +459,7 @@ func classify(res *Result) (nontrivial bool, classes []string) {
 		f[x] = true
 		classes = append(classes, x)
 	}
-	nontrivial = f["late_begin"] || f["finish_overlapped"] || f["aged_sweep_warning_to_critical"] || f["aged_sweep_above_critical"] || f["cancel_at_grant"] || f["commit_fault_injected"] || f["ctx_dead_at_commit"] || f["ctx_dead_at_rollback"] || f["ctx_dead_at_op"] || f["ctx_dead_at_begin"] || f["abandoned_cleaned"] || f["double_finish_contended"]
+	nontrivial = f["late_begin"] || f["finish_overlapped"] || f["race_finish"] || f["long_lived_server"] || f["aged_sweep_warning_to_critical"] || f["aged_sweep_above_critical"] || f["cancel_at_grant"] || f["commit_fault_injected"] || f["ctx_dead_at_commit"] || f["ctx_dead_at_rollback"] || f["ctx_dead_at_op"] || f["ctx_dead_at_begin"] || f["abandoned_cleaned"] || f["double_finish_contended"]
 	if nontrivial {
 		classes = append(classes, "nontrivial")
 	}
